@@ -166,24 +166,39 @@ RawAt(C, t, path, parentId, fname, args) ==
   ELSE [r |-> "leaf", v |-> LeafRaw(Named(t), parentId, fname, args)]
 
 ------------------------------------------------------------------------------
-(* Big-step execution.  Results: [st \in {"ok","fail"}, v, errs, calls]
-   errs  : set of response paths at which a failure is raised
-   calls : sequence of [path, parent, args] for every custom-resolver invocation    *)
-Ok(v, e, c, p)  == [st |-> "ok", v |-> v, errs |-> e, calls |-> c, pos |-> p]
-Fail(e, c, p)   == [st |-> "fail", v |-> Null, errs |-> e, calls |-> c, pos |-> p]
+(* Big-step execution.  A result is a record
+     [st \in {"ok","fail"}, v, errs, up, nulls, calls, pos]
+   v     : the completed value (Null when st = "fail")
+   errs  : set of [path, nodes] - every failure raised (response path with list indices,
+           merged field nodes of the failing field)
+   up    : paths of the failures currently propagating upward (st = "fail" only)
+   nulls : set of [at, why] - positions turned into null by error protection, with the
+           propagating failures that explain them
+   calls : sequence of [path, parent, args, ret] for every custom-resolver invocation
+   pos   : set of [path, type] - the positions (fields with a custom resolver, list
+           items) of the response tree, used to enumerate fault points                 *)
+Res(st, v, e, u, n, c, p) == [st |-> st, v |-> v, errs |-> e, up |-> u, nulls |-> n, calls |-> c, pos |-> p]
+OkV(v)              == Res("ok", v, {}, {}, {}, <<>>, {})
+FailAt(path, ids)   == Res("fail", Null, {[path |-> path, nodes |-> ids]}, {path}, {}, <<>>, {})
 \* error protection at a nullable position (field or list item)
-Caught(t, r) == IF r.st = "fail" /\ ~IsNN(t) THEN Ok(Null, r.errs, r.calls, r.pos) ELSE r
+Caught(t, path, r) ==
+  IF r.st = "fail" /\ ~IsNN(t)
+  THEN Res("ok", Null, r.errs, {}, r.nulls \cup {[at |-> path, why |-> r.up]}, r.calls, r.pos)
+  ELSE r
 Pos(path, t) == [path |-> path, type |-> t]
+\* sequential composition of two sibling results (fields of a selection set, items of a list)
+Both(r, rest) ==
+  Res(IF r.st = "fail" \/ rest.st = "fail" THEN "fail" ELSE "ok", Null,
+      r.errs \cup rest.errs, r.up \cup rest.up, r.nulls \cup rest.nulls, r.calls \o rest.calls, r.pos \cup rest.pos)
 
 RECURSIVE ExecSel(_, _, _, _, _), ExecEntries(_, _, _, _, _), ExecField(_, _, _, _, _), Complete(_, _, _, _, _), CompleteItems(_, _, _, _, _, _)
 
 ExecEntries(C, rt, grouped, path, parentId) ==
-  IF grouped = <<>> THEN Ok(Obj(<<>>), {}, <<>>, {})
+  IF grouped = <<>> THEN OkV(Obj(<<>>))
   ELSE LET r    == ExecField(C, rt, Head(grouped), path, parentId)
-           rest == ExecEntries(C, rt, Tail(grouped), path, parentId) IN
-       IF r.st = "fail" \/ rest.st = "fail"
-       THEN Fail(r.errs \cup rest.errs, r.calls \o rest.calls, r.pos \cup rest.pos)
-       ELSE Ok(Obj(<<<<Head(grouped)[1], r.v>>>> \o rest.v.v), r.errs \cup rest.errs, r.calls \o rest.calls, r.pos \cup rest.pos)
+           rest == ExecEntries(C, rt, Tail(grouped), path, parentId)
+           b    == Both(r, rest) IN
+       IF b.st = "fail" THEN b ELSE [b EXCEPT !.v = Obj(<<<<Head(grouped)[1], r.v>>>> \o rest.v.v)]
 
 ExecSel(C, rt, ids, path, parentId) == ExecEntries(C, rt, Collect(C, rt, ids), path, parentId)
 
@@ -192,46 +207,48 @@ ExecField(C, rt, entry, path, parentId) ==
       node  == C.nodes[entry[2][1]]
       fname == node.name
       fdef  == FieldDef(rt, fname) IN
-  IF fname = "__typename" THEN Ok(Str(rt), {}, <<>>, {})
+  IF fname = "__typename" THEN OkV(Str(rt))
   ELSE
   LET args == CoerceArgs(C, fdef, node) IN
-  IF ~args.ok THEN Caught(fdef.type, Fail({me}, <<>>, {}))
+  IF ~args.ok THEN Caught(fdef.type, me, [FailAt(me, entry[2]) EXCEPT !.pos = {Pos(me, fdef.type)}])
   ELSE LET raw  == RawAt(C, fdef.type, me, parentId, fname, args.v)
            call == IF fdef.res = "R" THEN <<[path |-> me, parent |-> parentId, args |-> args.v, ret |-> raw]>> ELSE <<>>
            here == IF fdef.res = "R" THEN {Pos(me, fdef.type)} ELSE {}
            r    == Complete(C, fdef.type, raw, me, entry[2]) IN
-       Caught(fdef.type, [r EXCEPT !.calls = call \o @, !.pos = here \cup @])
+       Caught(fdef.type, me, [r EXCEPT !.calls = call \o @, !.pos = here \cup @])
 
 Complete(C, t, raw, path, ids) ==
-  IF raw.r \in {"raise", "raiseLib", "exc"} THEN Fail({path}, <<>>, {})
+  IF raw.r \in {"raise", "raiseLib", "exc"} THEN FailAt(path, ids)
   ELSE IF IsNN(t) THEN
      LET r == Complete(C, Tail(t), raw, path, ids) IN
-     IF r.st = "ok" /\ IsNull(r.v) THEN Fail(r.errs \cup {path}, r.calls, r.pos) ELSE r
-  ELSE IF raw.r = "null" THEN Ok(Null, {}, <<>>, {})
+     IF r.st = "ok" /\ IsNull(r.v)
+     THEN Res("fail", Null, r.errs \cup {[path |-> path, nodes |-> ids]}, {path}, r.nulls, r.calls, r.pos)
+     ELSE r
+  ELSE IF raw.r = "null" THEN OkV(Null)
   ELSE IF IsList(t) THEN
-     IF raw.r # "list" THEN Fail({path}, <<>>, {})
+     IF raw.r # "list" THEN FailAt(path, ids)
      ELSE CompleteItems(C, Tail(t), raw.v, path, ids, 1)
   ELSE IF IsLeaf(Named(t)) THEN
-     IF raw.r = "leaf" THEN Ok(raw.v, {}, <<>>, {}) ELSE Fail({path}, <<>>, {})
+     IF raw.r = "leaf" THEN OkV(raw.v) ELSE FailAt(path, ids)
   ELSE \* composite
-     IF raw.r # "obj" THEN Fail({path}, <<>>, {})
-     ELSE IF raw.tn \notin DOMAIN Types THEN Fail({path}, <<>>, {})
-     ELSE IF KindOf(raw.tn) # "OBJECT" \/ ~TypeApplies(raw.tn, Named(t)) THEN Fail({path}, <<>>, {})
+     IF raw.r # "obj" THEN FailAt(path, ids)
+     ELSE IF raw.tn \notin DOMAIN Types THEN FailAt(path, ids)
+     ELSE IF KindOf(raw.tn) # "OBJECT" \/ ~TypeApplies(raw.tn, Named(t)) THEN FailAt(path, ids)
      ELSE ExecSel(C, raw.tn, ids, path, raw.id)
 
 CompleteItems(C, it, items, path, ids, i) ==
-  IF i > Len(items) THEN Ok(Lst(<<>>), {}, <<>>, {})
+  IF i > Len(items) THEN OkV(Lst(<<>>))
   ELSE LET ip   == Append(path, Idx(i - 1))
-           r0   == Caught(it, Complete(C, it, items[i], ip, ids))
+           r0   == Caught(it, ip, Complete(C, it, items[i], ip, ids))
            r    == [r0 EXCEPT !.pos = {Pos(ip, it)} \cup @]
-           rest == CompleteItems(C, it, items, path, ids, i + 1) IN
-       IF r.st = "fail" \/ rest.st = "fail"
-       THEN Fail(r.errs \cup rest.errs, r.calls \o rest.calls, r.pos \cup rest.pos)
-       ELSE Ok(Lst(<<r.v>> \o rest.v.v), r.errs \cup rest.errs, r.calls \o rest.calls, r.pos \cup rest.pos)
+           rest == CompleteItems(C, it, items, path, ids, i + 1)
+           b    == Both(r, rest) IN
+       IF b.st = "fail" THEN b ELSE [b EXCEPT !.v = Lst(<<r.v>> \o rest.v.v)]
 
 RootType(C) == Roots[C.nodes[C.op].optype]
 
 BigStep(C) ==
   LET r == ExecSel(C, RootType(C), <<C.op>>, <<>>, "") IN
-  [data |-> IF r.st = "fail" THEN Null ELSE r.v, errs |-> r.errs, calls |-> r.calls, pos |-> r.pos]
+  [data |-> IF r.st = "fail" THEN Null ELSE r.v, errs |-> r.errs, calls |-> r.calls, pos |-> r.pos,
+   nulls |-> IF r.st = "fail" THEN r.nulls \cup {[at |-> <<>>, why |-> r.up]} ELSE r.nulls]
 =============================================================================
